@@ -399,6 +399,41 @@ package sbom
 //@   ensures [validNL] validNL(nl)
 //@   ensures [C08:cleanEdges:freshEdges] fresh(arr(nl.Edges)) && (forall e *Edge :: (e in elems(nl.Edges)) ==> fresh(e) && (arr(e.To) == nil || fresh(arr(e.To))))
 //@   ensures [C08:cleanEdges:others] nl.Nodes == old(nl.Nodes) && nl.RootElements == old(nl.RootElements)
+//@   ensures [C08:cleanEdges:closedFrom] forall e *Edge :: (e in elems(nl.Edges)) ==> (e.From in fieldset(nl.Nodes, Id)) && len(e.To) > 0
+//@   ensures [C08:cleanEdges:oneEdgePerSourceAndType] forall i int, j int :: 0 <= i && i < j && j < len(nl.Edges) ==> !(nl.Edges[i].From == nl.Edges[j].From && nl.Edges[i].Type == nl.Edges[j].Type)
+//@   invariant L0: (forall k string :: (k in seenCache) ==> k == (seenCache[k].From + "+++" + Edge_Type.String(seenCache[k].Type)))
+//@   invariant L1: (forall k string :: (k in seenCache) ==> k == (seenCache[k].From + "+++" + Edge_Type.String(seenCache[k].Type)))
+//@   invariant L2: (forall k string :: (k in seenCache) ==> k == (seenCache[k].From + "+++" + Edge_Type.String(seenCache[k].Type)))
+//@   invariant L3: (forall k string :: (k in seenCache) ==> k == (seenCache[k].From + "+++" + Edge_Type.String(seenCache[k].Type)))
+//@   invariant L2: forall i int :: 0 <= i && i < len(newEdges) ==> ((newEdges[i].From + "+++" + Edge_Type.String(newEdges[i].Type)) in _V)
+//@   invariant L2: forall i int, j int :: 0 <= i && i < j && j < len(newEdges) ==> (newEdges[i].From + "+++" + Edge_Type.String(newEdges[i].Type)) != (newEdges[j].From + "+++" + Edge_Type.String(newEdges[j].Type))
+//@   invariant L3: forall i int :: 0 <= i && i < len(newEdges) ==> ((newEdges[i].From + "+++" + Edge_Type.String(newEdges[i].Type)) in _V1) && (newEdges[i].From + "+++" + Edge_Type.String(newEdges[i].Type)) != f
+//@   invariant L3: forall i int, j int :: 0 <= i && i < j && j < len(newEdges) ==> (newEdges[i].From + "+++" + Edge_Type.String(newEdges[i].Type)) != (newEdges[j].From + "+++" + Edge_Type.String(newEdges[j].Type))
+//@   ensures [C08:cleanEdges:noRepeatedTargets] forall i int :: 0 <= i && i < len(nl.Edges) ==> (forall a int, b int :: 0 <= a && a < b && b < len(nl.Edges[i].To) ==> nl.Edges[i].To[a] != nl.Edges[i].To[b])
+//@   invariant L0: (forall k1 string, k2 string :: (k1 in seenCache) && (k2 in seenCache) && k1 != k2 ==> arr(seenCache[k1].To) != arr(seenCache[k2].To))
+//@   invariant L1: (forall k1 string, k2 string :: (k1 in seenCache) && (k2 in seenCache) && k1 != k2 ==> arr(seenCache[k1].To) != arr(seenCache[k2].To))
+//@   invariant L2: (forall k1 string, k2 string :: (k1 in seenCache) && (k2 in seenCache) && k1 != k2 ==> arr(seenCache[k1].To) != arr(seenCache[k2].To))
+//@   invariant L3: (forall k1 string, k2 string :: (k1 in seenCache) && (k2 in seenCache) && k1 != k2 ==> arr(seenCache[k1].To) != arr(seenCache[k2].To))
+//@   invariant L2: (forall i int :: 0 <= i && i < len(newEdges) ==> ((newEdges[i].From + "+++" + Edge_Type.String(newEdges[i].Type)) in seenCache) && seenCache[(newEdges[i].From + "+++" + Edge_Type.String(newEdges[i].Type))] == newEdges[i])
+//@   invariant L3: (forall i int :: 0 <= i && i < len(newEdges) ==> ((newEdges[i].From + "+++" + Edge_Type.String(newEdges[i].Type)) in seenCache) && seenCache[(newEdges[i].From + "+++" + Edge_Type.String(newEdges[i].Type))] == newEdges[i])
+//@   invariant L2: forall k string :: (k in seenCache) && !(k in _V) ==> len(seenCache[k].To) == 0
+//@   invariant L2: forall k string :: (k in seenCache) && (k in _V) ==> (forall a int, b int :: 0 <= a && a < b && b < len(seenCache[k].To) ==> seenCache[k].To[a] != seenCache[k].To[b])
+//@   invariant L3: forall k string :: (k in seenCache) && !(k in _V1) ==> len(seenCache[k].To) == 0
+//@   invariant L3: forall k string :: (k in seenCache) && (k in _V1) && k != f ==> (forall a int, b int :: 0 <= a && a < b && b < len(seenCache[k].To) ==> seenCache[k].To[a] != seenCache[k].To[b])
+//@   invariant L3: (f in seenCache) && (forall j int :: 0 <= j && j < len(seenCache[f].To) ==> (seenCache[f].To[j] in _V)) && (forall a int, b int :: 0 <= a && a < b && b < len(seenCache[f].To) ==> seenCache[f].To[a] != seenCache[f].To[b])
+//@   ensures [C08:cleanEdges:closedTo] forall e *Edge :: (e in elems(nl.Edges)) ==> (forall j int :: 0 <= j && j < len(e.To) ==> (e.To[j] in fieldset(nl.Nodes, Id)))
+//@   invariant L0: (forall k string :: (k in seenCache) ==> len(seenCache[k].To) == 0) && (forall k string, s string :: (k in newTos) && (s in newTos[k]) ==> (s in fieldset(nl.Nodes, Id)))
+//@   invariant L1: (forall k string :: (k in seenCache) ==> len(seenCache[k].To) == 0) && (forall k string, s string :: (k in newTos) && (s in newTos[k]) ==> (s in fieldset(nl.Nodes, Id)))
+//@   invariant L2: (forall k string, s string :: (k in newTos) && (s in newTos[k]) ==> (s in fieldset(nl.Nodes, Id)))
+//@   invariant L2: forall k string :: (k in seenCache) ==> (forall j int :: 0 <= j && j < len(seenCache[k].To) ==> (seenCache[k].To[j] in fieldset(nl.Nodes, Id)))
+//@   invariant L2: forall e *Edge :: (e in elems(newEdges)) ==> (forall j int :: 0 <= j && j < len(e.To) ==> (e.To[j] in fieldset(nl.Nodes, Id)))
+//@   invariant L3: (forall k string, s string :: (k in newTos) && (s in newTos[k]) ==> (s in fieldset(nl.Nodes, Id)))
+//@   invariant L3: forall k string :: (k in seenCache) ==> (forall j int :: 0 <= j && j < len(seenCache[k].To) ==> (seenCache[k].To[j] in fieldset(nl.Nodes, Id)))
+//@   invariant L3: forall e *Edge :: (e in elems(newEdges)) ==> (forall j int :: 0 <= j && j < len(e.To) ==> (e.To[j] in fieldset(nl.Nodes, Id)))
+//@   invariant L0: (forall k string :: (k in nodeIndex) <==> (k in fieldset(nl.Nodes, Id))) && (forall k string :: (k in seenCache) ==> (seenCache[k].From in fieldset(nl.Nodes, Id)))
+//@   invariant L1: (forall k string :: (k in nodeIndex) <==> (k in fieldset(nl.Nodes, Id))) && (forall k string :: (k in seenCache) ==> (seenCache[k].From in fieldset(nl.Nodes, Id)))
+//@   invariant L2: (forall k string :: (k in seenCache) ==> (seenCache[k].From in fieldset(nl.Nodes, Id))) && (forall e *Edge :: (e in elems(newEdges)) ==> (e.From in fieldset(nl.Nodes, Id)) && len(e.To) > 0)
+//@   invariant L3: (forall k string :: (k in seenCache) ==> (seenCache[k].From in fieldset(nl.Nodes, Id))) && (forall e *Edge :: (e in elems(newEdges)) ==> (e.From in fieldset(nl.Nodes, Id)) && len(e.To) > 0)
 //@   invariant L2: fresh(arr(newEdges)) && (forall e *Edge :: (e in elems(newEdges)) ==> fresh(e) && (arr(e.To) == nil || fresh(arr(e.To)))) && (forall k string :: (k in seenCache) ==> seenCache[k] != nil && fresh(seenCache[k]) && (arr(seenCache[k].To) == nil || fresh(arr(seenCache[k].To))))
 //@   invariant L3: fresh(arr(newEdges)) && (forall e *Edge :: (e in elems(newEdges)) ==> fresh(e) && (arr(e.To) == nil || fresh(arr(e.To)))) && (forall k string :: (k in seenCache) ==> seenCache[k] != nil && fresh(seenCache[k]) && (arr(seenCache[k].To) == nil || fresh(arr(seenCache[k].To))))
 //@   invariant L0: forall k string :: (k in seenCache) ==> seenCache[k] != nil && fresh(seenCache[k]) && (arr(seenCache[k].To) == nil || fresh(arr(seenCache[k].To)))
@@ -406,7 +441,9 @@ package sbom
 
 // C08: well-formedness of the graph (closedness part)
 //@ pred closedRoots(nl *NodeList) = forall r string :: (r in elems(nl.RootElements)) ==> (r in fieldset(nl.Nodes, Id))
-//@ pred closedEdges(nl *NodeList) = forall e *Edge :: (e in elems(nl.Edges)) ==> (e.From in fieldset(nl.Nodes, Id)) && (forall t string :: (t in elems(e.To)) ==> (t in fieldset(nl.Nodes, Id)))
+//@ pred closedEdges(nl *NodeList) = forall e *Edge :: (e in elems(nl.Edges)) ==> (e.From in fieldset(nl.Nodes, Id)) && (forall j int :: 0 <= j && j < len(e.To) ==> (e.To[j] in fieldset(nl.Nodes, Id)))
+
+//@ pred normalisedNL(nl *NodeList) = (forall i int, j int :: 0 <= i && i < j && j < len(nl.Edges) ==> !(nl.Edges[i].From == nl.Edges[j].From && nl.Edges[i].Type == nl.Edges[j].Type)) && (forall i int :: 0 <= i && i < len(nl.Edges) ==> len(nl.Edges[i].To) > 0 && (forall a int, b int :: 0 <= a && a < b && b < len(nl.Edges[i].To) ==> nl.Edges[i].To[a] != nl.Edges[i].To[b]))
 
 //@ func NodeList.RemoveNodes
 //@   props C04, C08
@@ -415,6 +452,8 @@ package sbom
 //@   ensures [validNL] validNL(nl)
 //@   ensures [C08:remove:exactly] forall x string :: (x in fieldset(nl.Nodes, Id)) <==> ((x in old(fieldset(nl.Nodes, Id))) && !(x in elems(ids)))
 //@   ensures [C08:remove:rootsClosed] closedRoots(nl)
+//@   ensures [C08:remove:edgesClosed] closedEdges(nl)
+//@   ensures [C08:remove:normalised] normalisedNL(nl)
 //@   invariant L0: forall x string :: (x in idDict) <==> (x in elemsn(ids, _i))
 //@   invariant L1: forall x string :: (x in idDict) <==> (x in elems(ids))
 //@   invariant L1: !(nil in elems(newNodeList))
